@@ -1045,8 +1045,8 @@ def find(req):
                 bad, name = c04_meta.run_case(r)
             except Exception as e:  # noqa
                 bad, name = [("?", "?", "extraction", f"{type(e).__name__}")], r
-            for (p_, f_, want, got) in bad:
-                s.append({"kind": "metadata", "where": f"{r} get_metadata().{f_}", "detail": f"stored {want!r}, reported {got!r}", "file": f"crafted:{name}"})
+            for (p_, f_, want, got, *lay) in bad:
+                s.append({"kind": "metadata", "where": f"{r} get_metadata().{f_}", "detail": f"stored {want!r}, reported {got!r}", "file": f"crafted:{name}" + (" " + lay[0] if lay else "")})
         return {"reproduced": bool(s), "failures": s[:50], "count": len(s), "files": len(fixture_files())}
     if "assumed-model-validation" in ob:
         s = sweep(fixtures_only=True)
